@@ -81,6 +81,8 @@ type poolRig struct {
 	tryInterval time.Duration
 	retryMode   string // "", "healthy-exists", "all-failing"
 
+	realHC   bool   // the real active health checker runs (its client's transport answers from hcBad)
+	hcBad    []bool // what each backend's health endpoint answers
 	hosts    []*proxy.UpstreamHost
 	inflight []int
 	maxInfl  []int
@@ -190,6 +192,23 @@ func setupSimproxy(c *casket.Controller) error {
 		return simproxyMW{p: proxy.Proxy{Next: next, Upstreams: ups}, rig: rig}
 	})
 	return nil
+}
+
+// hcRT answers the real health checker's probes from the rig's state.
+type hcRT struct{ rig *poolRig }
+
+func (t hcRT) RoundTrip(req *http.Request) (*http.Response, error) {
+	r := t.rig
+	st := 200
+	for i := range r.hcBad {
+		if req.URL.Host == fmt.Sprintf("10.9.0.%d:80", i+1) && r.hcBad[i] {
+			st = 503
+		}
+	}
+	if !r.cleanup {
+		r.c.Probe("real-health-check-probe")
+	}
+	return &http.Response{StatusCode: st, Proto: "HTTP/1.1", ProtoMajor: 1, ProtoMinor: 1, Header: http.Header{}, Body: io.NopCloser(strings.NewReader("ok")), Request: req}, nil
 }
 
 // ---- the policy wrapper: snapshot availability at the instant of selection ----
@@ -365,6 +384,11 @@ func (t *simRT) RoundTrip(req *http.Request) (resp *http.Response, err error) {
 		b, _ := io.ReadAll(req.Body)
 		att.body = b
 	}
+	if req.Body != nil {
+		// the RoundTripper contract: the request body is always closed, also on errors.
+		// (Done here, before any outcome is recorded: closing may still read from the client.)
+		req.Body.Close()
+	}
 	c.Logf("rt: req %s attempt %d at backend %d (inflight %d)", id, k, t.idx, r.inflight[t.idx])
 	if c.ParkOr(fmt.Sprintf("hook.rt/r%s#%d", id, k), "req:"+id, req.Context().Done()) {
 		att.outcome = "cancelled"
@@ -453,6 +477,18 @@ func runPool(mode string) sim.RigFunc {
 		rs := c.T.Stream("policy-rand")
 		proxy.VerifRandInt = func() int { return rs.Draw(1 << 20) }
 		defer func() { proxy.VerifRandInt = nil }()
+		// a scheduling point right before a request is counted against its backend
+		countSeq := 0
+		proxy.VerifBeforeCount = func() {
+			if r.cleanup || r.maxConns == 0 {
+				return
+			}
+			countSeq++
+			c.Park(fmt.Sprintf("hook.count/#%d", countSeq), "proxy-counting")
+		}
+		defer func() { proxy.VerifBeforeCount = nil }()
+		proxy.VerifHealthClient = func(hc *http.Client) { hc.Transport = hcRT{r} }
+		defer func() { proxy.VerifHealthClient = nil }()
 		w := r.w
 		st := r.st
 		c.MaxSteps = 300
@@ -545,8 +581,16 @@ func runPool(mode string) sim.RigFunc {
 		if r.tryDuration > 0 {
 			fmt.Fprintf(&b, "\t\ttry_duration %s\n", r.tryDuration)
 		}
+		r.realHC = mode == "C14" && Applied("healthclient") && st.Draw(2) == 0
+		r.hcBad = make([]bool, r.n)
+		if r.realHC {
+			// (an interval that shares no instant with the fail_timeout values: two timers due at
+			// the same instant fire in no defined order)
+			b.WriteString("\t\thealth_check /hc\n\t\thealth_check_interval 333ms\n\t\thealth_check_timeout 1s\n")
+		}
 		fmt.Fprintf(&b, "\t\ttry_interval %s\n\t}\n}\n", r.tryInterval)
 		text := b.String()
+		c.Params["real_health_checker"] = r.realHC
 		c.Params["pool"] = r.n
 		c.Params["policy"] = r.policy
 		c.Params["max_conns"] = r.maxConns
@@ -655,6 +699,10 @@ func (r *poolRig) addReq(i int) {
 	st := r.st
 	q := &preq{id: i, servedBy: -1}
 	q.srcIP = net.IPv4(10, 1, 0, byte(1+st.Draw(3)))
+	if st.Draw(4) == 0 {
+		// IPv6 clients: the remote address reads [2001:db8::n]:port
+		q.srcIP = net.ParseIP(fmt.Sprintf("2001:db8::%d", 1+st.Draw(2)))
+	}
 	q.uri = fmt.Sprintf("/k%d", st.Draw(4))
 	q.hdrKey = fmt.Sprintf("h%d", st.Draw(4))
 	if st.Draw(5) == 0 {
@@ -762,10 +810,16 @@ func (r *poolRig) events(add func(sim.Event)) {
 				c.Fault(name)
 			}})
 			add(sim.Event{Key: fmt.Sprintf("fault.health-flip/b%d", i), Actor: "healthcheck", Weight: 1, Fire: func() {
+				r.flips++
+				if r.realHC {
+					// the backend's health endpoint changes its answer; the real worker finds out at its next tick
+					r.hcBad[i] = !r.hcBad[i]
+					c.Fault("health-endpoint-flip")
+					return
+				}
 				h := r.hosts[i]
 				v := atomic.LoadInt32(&h.Unhealthy)
 				atomic.StoreInt32(&h.Unhealthy, 1-v)
-				r.flips++
 				c.Fault("health-check-flip")
 			}})
 		}
